@@ -60,6 +60,34 @@ def gen_tree(rng, depth, nul=False):
     return ('M', m)
 
 
+UINT32_MAX, UINT64_MAX = 2**32 - 1, 2**64 - 1
+
+
+def gen_tree_ext(rng, depth):
+    """trees that also hold what the property does not name: unsigned integers ('u'/'U', z) and arrays ('A', [...])"""
+    r = rng.random()
+    if depth <= 0 or r < 0.4:
+        k = rng.randrange(8)
+        if k < 2:
+            return ('u', rng.choice([0, 1, 9, 10, INT32_MAX, INT32_MAX + 1, UINT32_MAX, UINT32_MAX - 1, rng.randrange(0, UINT32_MAX + 1)]))
+        if k < 5:
+            return ('U', rng.choice([0, 7, INT32_MAX, INT32_MAX + 1, UINT32_MAX, UINT32_MAX + 1, INT64_MAX - 1, INT64_MAX, INT64_MAX + 1, INT64_MAX + 2,
+                                     10**19, UINT64_MAX - 1, UINT64_MAX, rng.randrange(0, UINT64_MAX + 1), rng.randrange(INT64_MAX - 5, INT64_MAX + 6)]))
+        return gen_tree(rng, 0)
+    if r < 0.7:
+        return ('A', [gen_tree_ext(rng, depth - 1) for _ in range(rng.randrange(0, 5))])
+    if r < 0.85:
+        return [gen_tree_ext(rng, depth - 1) for _ in range(rng.randrange(0, 4))]
+    m, seen = [], set()
+    for _ in range(rng.randrange(0, 4)):
+        k = gen_bytes(rng, 6)
+        if k in seen:
+            continue
+        seen.add(k)
+        m.append((k, gen_tree_ext(rng, depth - 1)))
+    return ('M', m)
+
+
 def enc(v):
     """one-token prefix form understood by harness and driver"""
     if v is None:
@@ -74,6 +102,8 @@ def enc(v):
         return ','.join(['L%d' % len(v)] + [enc(x) for x in v])
     if v[0] == 'M':
         return ','.join(['M%d' % len(v[1])] + ['k' + k.hex() + ',' + enc(x) for k, x in v[1]])
+    if v[0] == 'A':
+        return ','.join(['A%d' % len(v[1])] + [enc(x) for x in v[1]])
     return '%s%d' % (v[0], v[1])
 
 
@@ -237,14 +267,27 @@ class C15(Check):
                   'across calls; repair 06 clears the target), so the error position of a second parse lies inside the second text; the static '
                   'wrappers are parse on a fresh object; parse(toString v) = canon v (equal tree) for every tree of null, booleans, '
                   '32/64-bit integers, NUL-free strings, lists and maps with distinct NUL-free keys (layers: unescape(escape s) = s, atoll(printf z) = z); '
+                  'the two `k.scanf("%x") != 1` tests of readToken are never true (hex4_scan_never_fails, parse_never_reports_hexadecimal_number); '
                   'the string tokenizer = RFC 8259 on valid literals (escapes, surrogate pairs, UTF-8); stripComments on the C string inside the '
                   'String (bytes before the first 0 byte) = a five-state reference machine for every input (which agrees with a grammar of comments and literals), keeps every line break, is the '
                   'identity on texts without a slash, is never longer than its input, and a second transcription with every src[k] read and '
                   'every *(dest++) write checked against the two buffers (data.length()+1 bytes each) never leaves them. The model is tied to '
                   'the code by running the extracted model, the extracted spec and the ASan/UBSan build on the same inputs (parse results, error '
                   'positions, toString text, re-parsed trees, stripped texts compared line by line; exact-size heap copies; watchdog).')
-    level_note = ('Partial: libc is modelled by reference functions (printf %d/%lld = print_dec, atoll = ref_atoll incl. saturation, '
-                  'sscanf %x on four checked hex digits = positional value, strpbrk = find_one_of) - atoll(printf z) = z is proved for the '
+    level_note = ('EXTENSION BEYOND THE CLASS OF THE PROPERTY (the property names null, booleans, signed integers, strings, lists, maps): Json::toString '
+                  'also writes uint, uint64 and Array<Variant> (Json.cpp:420-423, 476-497); these are in the serialiser model and in the harness, with their '
+                  'own theorem ext_parse_toString_readback: parse(toString v) = readback v, where an array comes back as a list (which Variant::operator== '
+                  'does not call equal to the array: ext_array_comes_back_as_list), a uint comes back as int below 2^31 and as int64 above (equal by value), '
+                  'a uint64 below 2^63 as int/int64 (equal) and from 2^63 on as int64 9223372036854775807 because atoll saturates '
+                  '(ext_uint64_saturates_from_2p63: NOT equal - outside the property, which speaks of signed integers only; noted, not a finding). '
+                  'On the class of the property readback = canon (ext_class_contains_property_class). '
+                  'Dead code: the two returns "Expected hexadecimal number" (Json.cpp:136, 153) cannot execute - k holds four bytes accepted by isHexDigit and '
+                  'sscanf("%x") (modelled as JsonModel.scanf_hex: white space, sign, 0x prefix, digit run, strtoul overflow; tied to libc by op xscan on all '
+                  'short strings over a sign/prefix/digit alphabet) converts every such k (hex4_scan_never_fails); no text makes parse report that message '
+                  '(parse_never_reports_hexadecimal_number). Likewise unreachable and not modelled: "Expected \'{\'" / "Expected \'[\'" (Json.cpp:298, 331) - parseObject / '
+                  'parseArray are called from the switch of parseValue on exactly that token only. '
+                  'Partial: libc is modelled by reference functions (printf %d/%lld/%u/%llu = print_dec, atoll = ref_atoll incl. saturation, '
+                  'sscanf %x = scanf_hex, strpbrk = find_one_of) - atoll(printf z) = z is proved for the '
                   'model functions over the whole 64-bit range and validated against libc on boundary and random integers only. '
                   'Doubles are outside the property (kept as opaque text). The nesting depth bound (1000) concerns the C++ stack: the model '
                   'needs no depth hypothesis, depth up to 1000 is validated by correspondence only (stream nesting). HashMap is modelled as '
@@ -264,15 +307,17 @@ class C15(Check):
     technique = 'coq-proof + model/implementation correspondence (extracted model vs ASan/UBSan build), spec oracles on implementation answers'
     rule = ('cases = one call each: parse <text>, pstr <string literal content>, strip <String bytes>, rt <tree> (toString then parse), '
             'parse2 <shared target?> <text1> <text2> (one Parser object), into <tree> <text> and rtinto <tree0> <tree> (target already holds a value), '
-            'sparse <c|s|p> <text> (static wrappers, String overloads); streams: '
+            'sparse <c|s|p> <text> (static wrappers, String overloads), xscan <bytes> (String::scanf("%x") vs scanf_hex); streams: '
             'exhaustive short texts over the delimiter alphabet, over a string-token alphabet and over a comment alphabet; valid documents in many '
             'styles; mutations aimed at escapes, quotes and the terminator; every truncation of sample documents; every byte after a backslash; '
             'truncated and mispaired \\u escapes; line/column documents with CR, LF, CR LF inside and outside strings; comments next to strings '
             'and escapes; value trees with every byte 1..255 and the integer boundaries; nesting to depth 1000; pairs of failing / succeeding texts on one '
-            'Parser; targets holding scalars, lists, maps; strings of 4..64 KiB and containers of 100+ items; Strings with an embedded 0 byte. A case is '
+            'Parser; targets holding scalars, lists, maps; strings of 4..64 KiB and containers of 100+ items; Strings with an embedded 0 byte; '
+            'extension: trees with uint / uint64 at 2^31, 2^32, 2^63, 2^64-1 and Array<Variant> (empty, nested, 100+ items); sscanf %x on every short string '
+            'over a sign/prefix/digit alphabet. A case is '
             'non-trivial when the text has at least 3 bytes and one of " \\ / [ { (parse/strip/pstr), the tree has a container or a byte that must be '
             'escaped (rt), or the op line of a reuse op has at least 20 characters; distinct = distinct op text')
-    assumptions = ['libc printf("%d"/"%lld"), atoll, sscanf("%x"), strpbrk behave as the reference functions of JsonModel.v (print_dec, ref_atoll, hexn, find_one_of)',
+    assumptions = ['libc printf("%d"/"%lld"), atoll, sscanf("%x"), strpbrk behave as the reference functions of JsonModel.v (print_dec, ref_atoll, scanf_hex - checked on op xscan, find_one_of)',
                    'Variant/HashMap/List/String behave as value trees with an insertion-ordered map (checked by the dump of every parsed tree); Variant::clear() empties the target']
 
     def run_impl(self, cases, tag='impl'):
@@ -309,9 +354,11 @@ class C15(Check):
                 b = bytes.fromhex(t[1])
                 if len(b) >= 3 and any(c in b for c in b'"\\/[{'):
                     return True
-            if t[0] == 'rt' and (t[1].count(',') >= 1 or any(x in t[1] for x in ('22', '5c', '0a', '0d'))):
+            if t[0] == 'rt' and (t[1].count(',') >= 1 or t[1][0] in 'uUA' or any(x in t[1] for x in ('22', '5c', '0a', '0d'))):
                 return True
             if t[0] in ('parse2', 'into', 'rtinto', 'sparse') and len(l) >= 20:
+                return True
+            if t[0] == 'xscan' and t[1] != '-' and len(t[1]) >= 4:
                 return True
         return False
 
@@ -349,6 +396,12 @@ class C15(Check):
         if kind == 'rtinto':
             return ('rtinto: toString then parse into a Variant that already holds a value does not give an equal tree '
                     '(observation: equal flag | text, parse result): expected `%s` got `%s`' % (exp[:200], got[:300]))
+        if kind == 'xscan':
+            return ('xscan: libc sscanf("%%x") through String::scanf does not behave as the reference function JsonModel.scanf_hex: '
+                    'model `%s`, implementation `%s`' % (exp[:100], got[:100]))
+        if kind == 'rt' and exp.startswith('? |'):
+            return ('rt (extension beyond the property\'s class: unsigned integers, arrays): toString then parse does not give the tree the theorem '
+                    'ext_parse_toString_readback names (arrays as lists, unsigned as int/int64, 2^63 and above saturated): expected `%s` got `%s`' % (exp[:200], got[:300]))
         if kind == 'rt' and got.startswith('1 |'):
             return ('rt: toString then parse gives an equal tree, but not the one the theorem parse_toString_roundtrip names (canon v: integers that fit '
                     '32 bits come back as intType, everything else identical): expected `%s` got `%s`' % (exp[:200], got[:300]))
@@ -483,6 +536,55 @@ class C15(Check):
         out += self.streams_case_splits(thorough, rng, docs)
         out += self.streams_reuse(thorough, rng, docs)
         out += self.streams_large(thorough, rng)
+        out += self.streams_extension(thorough, rng)
+        return out
+
+    def streams_extension(self, thorough, rng):
+        """beyond the class of the property: the Variant types toString writes and the property does not name
+        (theorem ext_parse_toString_readback), and libc's sscanf %x against JsonModel.scanf_hex (hex4_scan_never_fails)"""
+        cases = []
+        for z in [0, 1, 9, 10, 99, INT32_MAX - 1, INT32_MAX, INT32_MAX + 1, UINT32_MAX - 1, UINT32_MAX]:
+            cases += [['rt u%d' % z], ['rt U%d' % z], ['rt A1,u%d' % z], ['rt L2,u%d,U%d' % (z, z)]]
+        for z in [UINT32_MAX + 1, 10**10, INT64_MAX - 1, INT64_MAX, INT64_MAX + 1, INT64_MAX + 2, 10**19, UINT64_MAX - 1, UINT64_MAX]:
+            cases += [['rt U%d' % z], ['rt A2,U%d,n' % z], ['rt M1,k61,U%d' % z]]
+        for tr in ['A0', 'A1,n', 'A1,A0', 'A2,A0,A0', 'A1,L0', 'L1,A0', 'A3,i1,i2,i3', 'A2,s22,s5c0a', 'A1,M1,k61,A1,t', 'M2,k61,A0,k62,A1,u5',
+                   'A1,A1,A1,A1,A1,n', 'A2,L1,A1,i1,M0', 'A4,n,t,f,s-']:
+            cases.append(['rt ' + tr])
+            cases.append(['rtinto L1,i0 ' + tr])
+            cases.append(['rtinto A1,i0 ' + tr])
+        for _ in range(5000 if thorough else 900):
+            cases.append(['rt ' + enc(gen_tree_ext(rng, rng.randrange(0, 5)))])
+        for _ in range(600 if thorough else 120):
+            cases.append(['rtinto %s %s' % (enc(gen_tree_ext(rng, rng.randrange(0, 3))), enc(gen_tree_ext(rng, rng.randrange(0, 3))))])
+            cases.append(['into %s %s' % (enc(gen_tree_ext(rng, rng.randrange(0, 3))), hexs(rng.choice([b'[1]', b'{"a":2}', b'3', b'[', b'[]'])))])
+        for n in ([100, 257, 1000] if thorough else [100, 257]):
+            cases.append(['rt ' + enc(('A', [('u', k * 16777259 % (UINT32_MAX + 1)) for k in range(n)]))])
+            cases.append(['rt ' + enc(('A', [('U', k * 72057594037927931 % (UINT64_MAX + 1)) for k in range(n)]))])
+            cases.append(['rt ' + enc(('A', [('A', [gen_bytes(rng, 20)]) for k in range(n)]))])
+        for d in ([1, 2, 10, 100, 200] if not thorough else [1, 2, 10, 50, 100, 150, 200]):
+            cases.append(['rt ' + 'A1,' * d + 'u1'])
+        out = [Stream('extension-trees', cases, note='EXTENSION beyond the property\'s class: uint / uint64 at the boundaries (2^31, 2^32, 2^63, 2^64-1) and '
+                                                     'Array<Variant> (empty, nested, 100+ items, depth 200) through toString and parse; the spec names the tree read back '
+                                                     '(readback v: arrays as lists, unsigned as int / int64, 2^63.. saturated) and makes no claim about ==')]
+        # libc sscanf("%x") through String::scanf vs the reference function scanf_hex
+        A4 = [0x20, 0x09, 0x2d, 0x2b, 0x30, 0x78, 0x58, 0x31, 0x66, 0x46, 0x67, 0x39, 0x61]     # SP TAB - + 0 x X 1 f F g 9 a
+        cases = []
+        for n in range(0, (5 if thorough else 4) + 1):
+            for tup in itertools.product(A4 if n <= 4 else A4[:9], repeat=n):
+                cases.append(['xscan ' + hexs(bytes(tup))])
+        HEX = b'0123456789abcdefABCDEF'
+        for a in HEX:                                                                    # every pair of first/last digit, all 22^2 middles sampled
+            for b in HEX:
+                cases.append(['xscan ' + hexs(bytes([a, rng.choice(HEX), rng.choice(HEX), b]))])
+        for _ in range(3000 if thorough else 600):
+            cases.append(['xscan ' + hexs(bytes(rng.choice(HEX) for _ in range(4)))])
+        for d in [b'ffffffff', b'100000000', b'-ffffffff', b'-100000000', b'ffffffffffffffff', b'10000000000000000', b'-ffffffffffffffff',
+                  b'123456789abcdef01234', b'-123456789abcdef01234', b'0x', b'0xg', b'0x0x1', b'-0x1F', b'+0XfF', b' \t\n\v\f\r1', b'1 2', b'\x80', b'\xff1',
+                  b'0x-1', b'- 1', b'+-1', b'00000000000000000000001']:
+            cases.append(['xscan ' + hexs(d)])
+        out.append(Stream('scanf-hex', cases, exhaustive=True,
+                          note='String::scanf("%x") vs JsonModel.scanf_hex: every byte string of length <= 4 over { SP TAB - + 0 x X 1 f F g 9 a }, '
+                               'four-digit strings (what readToken passes), overflow, signs, prefixes'))
         return out
 
     def streams_reuse(self, thorough, rng, docs):
